@@ -59,6 +59,9 @@ EXTRA = {
     'C18-send-pong-narrowed-transportfail-escapes': ['C14', 'C09'],
     'C18-control-held-until-message-complete': ['C14'],
     'C17-extensions-set-on-websocket-not-state': ['C10'],
+    'C03-compressor-cached-on-websocket': ['C17', 'C06'],
+    'C07-session-recycled-ready-not-reset': ['C17', 'C16'],
+    'C07-regular-skipped-while-readable': ['C15'],
 }
 
 
